@@ -408,6 +408,9 @@ func genTruncCases(r *rand.Rand, thorough bool) []tcase {
 			}
 			mid = cut > prev
 			out = append(out, tcase{Ep: "archive", Fam: "trunc", Kinds: ks[:nk], Data: full[:cut], Extra: J{"cutmid": mid}})
+			if cut%4 == 0 || cut == len(full) { // the same through an index and a store (untar -i)
+				out = append(out, tcase{Ep: "untarindex", Fam: "trunc", Kinds: ks[:nk], Data: full[:cut], Extra: J{"cutmid": mid}})
+			}
 		}
 	}
 	// every truncation of valid index files, to IndexFromReader and as the body of a PUT
@@ -566,6 +569,17 @@ func (nullIndexStore) StoreIndex(name string, idx desync.Index) error      { ret
 func (nullIndexStore) String() string                                      { return "null" }
 func (nullIndexStore) Close() error                                        { return nil }
 
+// nullFS accepts every node (a file's data is read to its end, as a real writer does)
+type nullFS struct{}
+
+func (nullFS) CreateDir(n desync.NodeDirectory) error { return nil }
+func (nullFS) CreateFile(n desync.NodeFile) error {
+	_, err := io.Copy(io.Discard, n.Data)
+	return err
+}
+func (nullFS) CreateSymlink(n desync.NodeSymlink) error { return nil }
+func (nullFS) CreateDevice(n desync.NodeDevice) error   { return nil }
+
 type emptyStore struct{}
 
 func (emptyStore) GetChunk(id desync.ChunkID) (*desync.Chunk, error) { return nil, desync.ChunkMissing{ID: id} }
@@ -644,6 +658,21 @@ func runCase(c tcase, scratch string) (res []string, panicMsg string, alloc uint
 				}
 				res = append(res, "node")
 			}
+		case "untarindex":
+			sdir := filepath.Join(scratch, "uti-store")
+			os.RemoveAll(sdir)
+			os.MkdirAll(sdir, 0755)
+			st, serr := desync.NewLocalStore(sdir, desync.StoreOptions{})
+			if serr != nil {
+				panic(serr)
+			}
+			ck, _ := desync.NewChunker(bytes.NewReader(data), 48, 64, 96)
+			idx, cerr := desync.ChunkStream(context.Background(), ck, st, 2)
+			if cerr != nil {
+				panic(cerr)
+			}
+			err := desync.UnTarIndex(context.Background(), nullFS{}, idx, st, 2, desync.NewProgressBar(""))
+			res = append(res, okErr(err))
 		case "index":
 			_, err := desync.IndexFromReader(bytes.NewReader(data))
 			res = append(res, okErr(err))
